@@ -35,6 +35,15 @@ def U(name):
         "Pw": [{"k": "par", "branches": [[{"k": "wait", "s": 2}, {"k": "step", "fn": {"ret": "after-wait"}}],
                                           [{"k": "step", "fn": {"sleep": 5, "then": {"ret": "slow"}}}]]}],
         "Pc": [{"k": "par", "branches": [[{"k": "wait", "s": 2}], [{"k": "cb"}]]}],
+        # a branch with completed work that is resumed in-process while its sibling is still running
+        "Psw": [{"k": "par", "cfg": {"cc": "all_completed"}, "branches": [
+            [{"k": "step", "fn": {"ret": "pre"}}, {"k": "wait", "s": 2}, {"k": "step", "fn": {"ret": "post"}}],
+            [{"k": "step", "fn": {"sleep": 5, "then": {"ret": "slow"}}}]]}],
+        "Prs": [{"k": "par", "cfg": {"cc": "all_completed"}, "branches": [
+            [{"k": "step", "fn": {"ret": "pre"}}, {"k": "step", "fn": {"fail": 1, "then": {"ret": "ok"}}, "retry": {"table": [1, "no"]}}],
+            [{"k": "step", "fn": {"sleep": 4, "then": {"ret": "slow"}}}]]}],
+        "Sd": [{"k": "step", "fn": {"sleep": 0.12, "then": {"ret": "d"}}}],
+        "Hd": [{"k": "child", "body": [{"k": "step", "fn": {"sleep": 0.12, "then": {"ret": "d"}}}]}],
         "M": [{"k": "map", "items": [1, 2], "body": [{"k": "step", "fn": {"item": True}}]}],
         "Mw": [{"k": "map", "items": [1, 2], "body": [{"k": "wait", "s": 2}, {"k": "step", "fn": {"item": True}}]}],
         "Nf": [{"k": "try", "catch": ["Boom", "CallableRuntimeError"],
@@ -47,8 +56,8 @@ def U(name):
 
 FULL = ["S", "Sv", "Sm", "R", "F", "W", "C", "Cs", "K", "I", "N", "H", "P", "M"]
 REDUCED = ["S", "R", "W", "C", "H", "P"]
-NESTED = ["Hh", "Hf", "Pw", "Pc", "Mw", "N3", "R2", "Nf", "Big"]
-CONCURRENT = {"P", "Pw", "Pc", "M", "Mw"}
+NESTED = ["Hh", "Hf", "Pw", "Pc", "Mw", "N3", "R2", "Nf", "Big", "Psw", "Prs"]
+CONCURRENT = {"P", "Pw", "Pc", "M", "Mw", "Psw", "Prs"}
 
 
 def program(names):
